@@ -60,9 +60,20 @@ def bits(p):
     return np.ascontiguousarray(np_of(p)).tobytes()
 
 
+def idx_bits(t):
+    """the idxs annotation (what tn.mask and mask-tensor keys read): part of what the tensor means"""
+    out = []
+    for i in getattr(t, "idxs", None) or []:
+        try:
+            out.append(None if i is None else np.asarray(np_of(i) if isinstance(i, torch.Tensor) else i).tobytes())
+        except Exception:
+            out.append(b"?")
+    return out
+
+
 def snap(t):
     ps = parts(t)
-    return {"objs": ps, "bits": [None if p is None else bits(p) for p in ps],
+    return {"objs": ps, "idxs": idx_bits(t), "bits": [None if p is None else bits(p) for p in ps],
             "vers": [None if p is None else p._version for p in ps],
             "kinds": [c.dim() for c in t.cores], "hasU": [U is not None for U in t.Us],
             "shapes": [None if p is None else tuple(p.shape) for p in ps], "dense": dense_of(t)}
@@ -93,6 +104,8 @@ def diff(s, t):
             out.append("dense")
     except Exception:
         out.append("dense")
+    if "dense" not in out and "shape" not in out and "ranks" not in out and idx_bits(t) != s.get("idxs", idx_bits(t)):
+        out.append("idxs")
     if len(ps) == len(s["objs"]):
         if any((p is None) != (b is None) or (p is not None and bits(p) != b) for p, b in zip(ps, s["bits"])):
             out.append("bits")
@@ -320,7 +333,7 @@ def coq_step(st):
 
 # effect-table class of every operation of the history language (coq/theories/Model/Heap.v, `table`)
 OP_KLASS = {}
-for _o in ["getitem", "getitem_slices", "getitem_index_matrix", "item"]:
+for _o in ["getitem", "getitem_slices", "getitem_index_matrix", "getitem_masktensor", "item"]:
     OP_KLASS[_o] = "KGetitem"
 for _o in ["decompress", "unsqueeze", "squeeze", "unbind", "transpose", "dot_partial"]:
     OP_KLASS[_o] = "KView"
@@ -466,6 +479,15 @@ def op(name, cls):
 def _(c):
     key, _s = rkey(c.r, shp(c.a), c)
     return c.a[key if c.r.random() < 0.8 or len(key) != 1 else key[0]]
+
+
+@op("getitem_masktensor", "new")
+def _(c):
+    """t[mask] with a mask tensor that accepts exactly one binary string (first index / the rest of each mode)"""
+    cores = [torch.tensor([[[1.0], [0.0]]]) if c.r.random() < 0.5 else torch.tensor([[[0.0], [1.0]]]) for _ in shp(c.a)]
+    if any(s_ < 2 for s_ in shp(c.a)):
+        raise Skip()
+    return c.a[tn.Tensor(cores)]
 
 
 @op("getitem_slices", "new")
@@ -715,7 +737,12 @@ def _(c):
     d = c.r.randrange(c.a.dim())
     if c.a.dim() == 1:
         raise Skip()
-    out = tn.unbind(c.a, d if c.r.random() < 0.7 else d - c.a.dim())
+    k = c.r.random()
+    if k < 0.2:        # the mode as a 0-d integer array (an argument array like any other)
+        dd = c.arr("dim 0-d array", torch.tensor(d - c.a.dim()) if c.r.random() < 0.5 else np.array(d - c.a.dim()))
+        out = tn.unbind(c.a, dd)
+    else:
+        out = tn.unbind(c.a, d if k < 0.75 else d - c.a.dim())
     return out[c.r.randrange(len(out))]
 
 
@@ -981,7 +1008,10 @@ def _(c):
 
 @op("orthogonalize", "inplace")
 def _(c):
-    c.a.orthogonalize(c.r.randint(-c.a.dim(), c.a.dim() - 1))
+    mu = c.r.randint(-c.a.dim(), c.a.dim() - 1)
+    if c.r.random() < 0.2:
+        mu = c.arr("mu 0-d array", torch.tensor(mu))
+    c.a.orthogonalize(mu)
 
 
 @op("left_orthogonalize", "inplace")
@@ -1073,7 +1103,8 @@ SLOW_OPS = {"cross", "elementwise", "minimum", "moments", "from_dense", "reduce"
 # derivations whose result is expected to share storage / be closely related to the source
 DERIVE_OPS = ["getitem_slices", "getitem", "transpose", "clone", "tt", "decompress", "unsqueeze", "squeeze", "add", "sub",
               "mul", "scalar_mul", "scalar_add", "neg", "flip", "unbind", "sum_dim", "ttm", "cat", "repeat", "mask",
-              "round_tt_copy", "round_tucker_copy", "anova", "cumsum", "pad", "dot_partial", "from_cores", "from_cores"]
+              "round_tt_copy", "round_tucker_copy", "anova", "cumsum", "pad", "dot_partial", "from_cores", "from_cores",
+              "getitem_masktensor"]
 
 
 class Ctx:
